@@ -297,10 +297,44 @@ def signo_histories():
     return out
 
 
+def run_suite_audit(shard, acc):
+    """Secondary workload: the upstream tests run under an audit hook on os.kill/os.killpg."""
+    import json
+    import os
+    import subprocess
+    import sys
+    import tempfile
+    ov = os.environ["VERIF_OVERLAY"]
+    log = tempfile.mktemp(prefix="c01audit_")
+    env = dict(os.environ, VERIF_AUDIT_LOG=log)
+    cmd = [sys.executable, "-B", "-m", "pytest", "-q", "--no-header", "-p", "no:cacheprovider", "-p", "vlib.pytest_killaudit",
+           "--timeout=600"] + [os.path.join(ov, "psutil", "tests", f) for f in shard["files"]]
+    subprocess.run(cmd, cwd=ov, env=env, stdout=subprocess.PIPE, stderr=subprocess.STDOUT, text=True)
+    counts = {}
+    if os.path.exists(log + ".counts"):
+        with open(log + ".counts") as f:
+            counts = json.load(f)
+        os.unlink(log + ".counts")
+    for k, v in counts.items():
+        acc.count("suite_audit_" + k, v)
+    viols = []
+    if os.path.exists(log):
+        with open(log) as f:
+            for line in f:
+                viols.append(("kill_nonpositive_pid:upstream_suite", line.strip()))
+        os.unlink(log)
+    if not counts:
+        acc.inconclusive = "audit plugin did not report (pytest run failed to start?)"
+    acc.case(dict(kind="suite_audit", files=shard["files"]), True, viols)
+
+
 def plan(tier, seed):
     depth = 4 if tier == "quick" else 6
     nrand = 16000 if tier == "quick" else 600000
     shards = [dict(kind="fixed")]
+    if tier == "thorough":
+        shards.append(dict(kind="suite_audit", files=["test_process.py", "test_posix.py"], timeout=3000))
+        shards.append(dict(kind="suite_audit", files=["test_system.py", "test_misc.py", "test_testutils.py"], timeout=3000))
     nparts = 16 if tier == "quick" else 48
     for i in range(nparts):
         shards.append(dict(kind="enum", depth=depth, part=i, parts=nparts))
@@ -332,7 +366,12 @@ def run_shard(shard):
         for i in range(shard["start"], shard["start"] + shard["count"]):
             rng = harness.rng_for(shard["seed"], "c01", i)
             run_history(gen_random(rng), acc, with_pid0=False)
+    elif k == "suite_audit":
+        run_suite_audit(shard, acc)
     elif k == "cases":
         for case in shard["cases"]:
+            if case.get("kind") == "suite_audit":
+                run_suite_audit(dict(files=case["files"]), acc)
+                continue
             run_history([tuple(o) for o in case["hist"]], acc, with_pid0=case.get("pid0", False))
     return acc.result()
